@@ -273,4 +273,25 @@ example : operandProblems demoSrc demoOut 1 32 [some 3, none] [some 0] = [] := b
 example : ((check demoSrc { demoOut with ops := demoOut.ops.take 1, outputs := [0] }).problems.map (·.kind)).contains "operator-lost" = true := by
   decide +kernel
 
+/-! a CPU-resident CONV_2D (stride 4) with per-axis quantised constant weights: the **whole** zero-point vector and the
+    quantised dimension of an operand are compared (`--force-symmetric-int-weights` must not leak into it) -/
+def wPerAxis (zps : List Int) (qd : Int) : PTensor :=
+  { name := "77", shape := [2, 1, 1, 8], dtype := "int8", quant := some ⟨[1008981770, 1017370378], zps, [], [], qd⟩,
+    const := some (16, "aa"), isVariable := false }
+def cpuConv (w : PTensor) : PGraph :=
+  { tensors := [tQ "78" [1, 8, 8, 8], w, tC "62" 8 "bb", tQ "79" [1, 2, 2, 2]], inputs := [0], outputs := [3],
+    ops := [⟨3, "", 1, ⟨true, 1, [(1, "04000000"), (2, "04000000")]⟩, "", [some 0, some 1, some 2], [3]⟩] }
+example : (check (cpuConv (wPerAxis [3, -2] 0)) (cpuConv (wPerAxis [3, -2] 0))).problems = [] ∧
+    (check (cpuConv (wPerAxis [3, -2] 0)) (cpuConv (wPerAxis [3, -2] 0))).cover.preserved = 1 := by decide +kernel
+/-- all weight zero points written as 0 (the defect repaired by patch C11-20; seeded round 4 C16-m2) -/
+example : (check (cpuConv (wPerAxis [3, -2] 0)) (cpuConv (wPerAxis [0, 0] 0))).problems.map (·.kind) = ["operand-quantisation"] := by
+  decide +kernel
+/-- one entry of the vector, or only the quantised dimension, changed -/
+example : (check (cpuConv (wPerAxis [3, -2] 0)) (cpuConv (wPerAxis [3, 0] 0))).problems.map (·.kind) = ["operand-quantisation"] := by
+  decide +kernel
+example : (check (cpuConv (wPerAxis [3, -2] 0)) (cpuConv (wPerAxis [3, -2] 3))).problems.map (·.kind) = ["operand-quantisation"] := by
+  decide +kernel
+/-- an absent zero-point vector next to the scales means zeros, and only zeros -/
+example : (check (cpuConv (wPerAxis [] 0)) (cpuConv (wPerAxis [0, 0] 0))).problems = [] := by decide +kernel
+
 end VelaVerif.Props.C11
